@@ -1370,6 +1370,27 @@ SDsetdimname(int32       id, /* IN: dataset ID */
         HGOTO_ERROR(DFE_ARGS, FAIL);
     }
 
+    /* the coordinate variable holding the scale and the attributes of this
+       dimension is found by name: it has to follow the dimension */
+    if (handle->vars != NULL) {
+        NC_var **vp = (NC_var **)handle->vars->values;
+
+        for (unsigned ii = 0; ii < handle->vars->count; ii++, vp++) {
+            if ((*vp)->assoc->count == 1 && (*vp)->var_type == IS_CRDVAR && old->len == (*vp)->name->len &&
+                strncmp(old->values, (*vp)->name->values, (size_t)old->len) == 0) {
+                NC_string *vname = NC_new_string((unsigned)strlen(name), name);
+
+                if (vname == NULL) {
+                    NC_free_string(new);
+                    HGOTO_ERROR(DFE_ARGS, FAIL);
+                }
+                NC_free_string((*vp)->name);
+                (*vp)->name = vname;
+                break;
+            }
+        }
+    }
+
     dim->name = new;
     NC_free_string(old);
 
